@@ -140,6 +140,15 @@ void SerialAssembleAction::onStop()
     AssembleAction::onStop();
 }
 
+void SerialAssembleAction::onFinished(bool is_succ, const Reason &why, const Trace &trace)
+{
+    //! 有可能不是子动作自然结束产生的 finish（如自己超时了），这时还在执行的子动作要停掉
+    stopCurrAction();
+    child_finish_func_ = nullptr;
+
+    AssembleAction::onFinished(is_succ, why, trace);
+}
+
 void SerialAssembleAction::onReset()
 {
     curr_action_ = nullptr;
